@@ -480,11 +480,19 @@ def run_case(case, repo_checks=True):
 
         def run():
             ti = c['t']
+            def due():
+                if 'calls' in c:
+                    r = R.transfers[ti]
+                    n = svc.key_events.get(r['key'], 0)
+                    if r['type'] == 'copy':
+                        n += svc.key_events.get(r['copy_source']['Key'], 0)
+                    return n >= c['calls']
+                return sched.step >= c['at']
             sched.point(lambda: (len(R.transfers) > ti
                                  and R.transfers[ti]['future'] is not None
-                                 and (sched.step >= c['at'] or all_done()))
+                                 and (due() or all_done()))
                         or R.end.get('submitted_all_failed'),
-                        'canceller.wait')
+                        'canceller.wait', urgent=True)
             if len(R.transfers) <= ti or R.transfers[ti]['future'] is None:
                 return
             f = R.transfers[ti]['future']
@@ -525,10 +533,24 @@ def run_case(case, repo_checks=True):
         for i, t in enumerate(case['transfers']):
             R.transfers.append(prepare(i, t))
         R.transfers_prepared = True
+        waiting_cancellers = []
         for c in (case.get('cancels') or []):
             if c['t'] < ntrans:
-                sched.spawn(canceller(c), f'canceller{c["t"]}',
-                            role='canceller')
+                th = sched.spawn(canceller(c), f'canceller{c["t"]}',
+                                 role='canceller')
+                if 'calls' in c:
+                    waiting_cancellers.append(th)
+
+        def on_s3_event(key):
+            # an event-based canceller whose trigger just became due runs
+            # next (otherwise the default policy would keep the current
+            # thread and the cancel would land after the transfer)
+            for th in waiting_cancellers:
+                if th.alive and th.pred is not None and th.pred():
+                    waiting_cancellers.remove(th)
+                    sched.point(None, 'cancel.due', prefer=th)
+                    break
+        svc.event_hook = on_s3_event
         kbi = case.get('kbi')
         if kbi:
             sched.cur.kbi_at = kbi['at']
@@ -561,7 +583,7 @@ def run_case(case, repo_checks=True):
             at = end.get('at')
             if at is not None:
                 sched.point(lambda: sched.step >= at or all_done(),
-                            'user.wait_step')
+                            'user.wait_step', urgent=True)
 
         try:
             if how in ('with', 'with_exc', 'with_kbi'):
